@@ -670,8 +670,9 @@ class DeepCmp:
     # lazily filled caches: compared through their public accessor
     LAZY = {'_mps_sites_cache': 'mps_sites', '_BZ': 'BZ', '_reciprocal_basis': 'reciprocal_basis'}
 
-    def __init__(self, lossy=False):
+    def __init__(self, lossy=False, sharing=True):
         self.lossy = lossy
+        self.sharing = sharing
         self.share = {}   # id(a) -> (a, b) for tenpy instances
         self.seen = set()
 
@@ -690,7 +691,7 @@ class DeepCmp:
         if isinstance(a, (str, bytes)):
             return None if (ta is tb and a == b) else '%s: %r vs %r' % (path, a, b)
         is_tenpy = hasattr(a, '__dict__') and ta.__module__.split('.')[0] in ('tenpy', 'harness') and not isinstance(a, type)
-        if is_tenpy:
+        if is_tenpy and self.sharing:
             if id(a) in self.share:
                 return None if self.share[id(a)][1] is b else '%s: object shared in the original is not shared after loading' % path
             self.share[id(a)] = (a, b)
@@ -772,7 +773,8 @@ class DeepCmp:
                             va, vb = va(), vb()
                     except Exception as e:
                         return '%s.%s: %s: %s' % (path, self.LAZY[k], type(e).__name__, e)
-                    r = self.cmp(va, vb, '%s.%s' % (path, self.LAZY[k]))
+                    # a recomputed value: equal content is all that can be asked (not the sharing inside the cache)
+                    r = DeepCmp(self.lossy, sharing=False).cmp(va, vb, '%s.%s' % (path, self.LAZY[k]))
                     if r:
                         return r
                     continue
